@@ -44,9 +44,17 @@ func runCrypto(c *Ctx, r *Reporter) {
 	}
 	q := func(fn *ssa.Function) string { return "learn." + ssaDisplayName(fn) }
 	// 1. AEAD
+	// the two functions are looked at together with the helpers of the package they call (newSessionGCM, envelopeHeader …)
+	regionBlocks := func(fn *ssa.Function) []*ssa.BasicBlock {
+		var out []*ssa.BasicBlock
+		for _, h := range regionFns(fn, 2, map[string]bool{"hybridEncrypt": true, "hybridDecrypt": true}) {
+			out = append(out, h.Blocks...)
+		}
+		return out
+	}
 	callsNamed := func(fn *ssa.Function, name string) []*ssa.Call {
 		var out []*ssa.Call
-		for _, b := range fn.Blocks {
+		for _, b := range regionBlocks(fn) {
 			for _, ins := range b.Instrs {
 				if call, ok := ins.(*ssa.Call); ok {
 					full := ""
@@ -198,7 +206,7 @@ func runCrypto(c *Ctx, r *Reporter) {
 	// 4b. the length field holds the length of the very RSA ciphertext that follows the header
 	{
 		okLen, why := false, "no binary.BigEndian.PutUint16 of a length found in hybridEncrypt"
-		for _, b := range enc.Blocks {
+		for _, b := range regionBlocks(enc) {
 			for _, ins := range b.Instrs {
 				call, ok := ins.(*ssa.Call)
 				if !ok || !(call.Call.IsInvoke() && call.Call.Method.Name() == "PutUint16") && !(call.Call.StaticCallee() != nil && call.Call.StaticCallee().Name() == "PutUint16") {
@@ -207,6 +215,17 @@ func runCrypto(c *Ctx, r *Reporter) {
 				v := call.Call.Args[len(call.Call.Args)-1]
 				if cv, ok := v.(*ssa.Convert); ok {
 					v = cv.X
+				}
+				// written in a helper that is handed the length: what hybridEncrypt passes for it
+				if prm, ok := v.(*ssa.Parameter); ok && prm.Parent() != enc {
+					for i, hp := range prm.Parent().Params {
+						if hp != prm {
+							continue
+						}
+						if sites := callsTo(enc, prm.Parent()); len(sites) == 1 && i < len(sites[0].Common().Args) {
+							v = sites[0].Common().Args[i]
+						}
+					}
 				}
 				okLen, why = false, "the length field is "+v.String()+", not len() of the RSA-OAEP ciphertext"
 				if of, isLen := isLenOf(v); isLen {
@@ -340,56 +359,73 @@ func runCrypto(c *Ctx, r *Reporter) {
 	}
 	// 6. verifyChoiceMatch
 	if fn := get("(*QuestionModel).verifyChoiceMatch"); fn != nil {
-		var neq, eql *ssa.BinOp
+		// Every return of an error that depends on the mark of a choice or on the comparison of its output with the
+		// question's is classified by what is known there: (marked?, outputs equal?). The rejected combinations must be
+		// exactly (marked, different) and (unmarked, equal) — however the two tests are written (two ifs, a switch over
+		// two flags, one shared comparison).
+		type combo struct{ marked, equal bool }
+		rejected := map[combo]bool{}
+		var cmps []*ssa.BinOp
+		why := "verifyChoiceMatch must reject a marked choice whose output differs AND an unmarked choice whose output is equal"
+		okV := true
 		for _, b := range fn.Blocks {
-			for _, ins := range b.Instrs {
-				if bo, ok := ins.(*ssa.BinOp); ok && isStringType(bo.X.Type()) {
-					if bo.Op == token.NEQ {
-						neq = bo
+			if len(b.Instrs) == 0 {
+				continue
+			}
+			if _, isRet := b.Instrs[len(b.Instrs)-1].(*ssa.Return); !isRet || !onlyErrorReturns(b, map[*ssa.BasicBlock]bool{}) {
+				continue
+			}
+			var marked, equal *bool
+			for _, f := range impliedConds(b) {
+				f := f
+				switch x := f.Cond.(type) {
+				case *ssa.Lookup:
+					if !x.CommaOk {
+						t := f.Truth
+						marked = &t
 					}
-					if bo.Op == token.EQL {
-						eql = bo
+				case *ssa.BinOp:
+					if (x.Op == token.EQL || x.Op == token.NEQ) && isStringType(x.X.Type()) {
+						t := f.Truth == (x.Op == token.EQL)
+						equal = &t
+						cmps = append(cmps, x)
 					}
 				}
+			}
+			switch {
+			case marked != nil && equal != nil:
+				rejected[combo{*marked, *equal}] = true
+			case marked != nil:
+				okV = false
+				why = "a choice is rejected for its mark alone, whatever its output"
+			case equal != nil:
+				okV = false
+				why = "a choice is rejected for its output alone, whether it is marked or not"
 			}
 		}
-		okV := neq != nil && eql != nil
-		why := "verifyChoiceMatch must reject a marked choice whose output differs AND an unmarked choice whose output is equal"
-		if okV {
-			for _, bo := range []*ssa.BinOp{neq, eql} {
-				rejects := false
-				for _, ref := range *bo.Referrers() {
-					if ifi, ok := ref.(*ssa.If); ok && onlyErrorReturns(ifi.Block().Succs[0], map[*ssa.BasicBlock]bool{}) {
-						rejects = true
-					}
-				}
-				if !rejects {
-					okV = false
-				}
-				for _, opnd := range []ssa.Value{bo.X, bo.Y} {
-					if call, ok := opnd.(*ssa.Call); ok {
-						if sc := call.Call.StaticCallee(); sc != nil && sc.Pkg != nil && sc.Pkg.Pkg.Path() == "strings" {
-							okV = false
-							why = "the outputs are compared after strings." + sc.Name() + ": outputs that differ only in whitespace would count as equal"
-						}
+		if okV && !(len(rejected) == 2 && rejected[combo{true, false}] && rejected[combo{false, true}]) {
+			okV = false
+			if rejected[combo{true, true}] || rejected[combo{false, false}] {
+				why = "the != test must apply to marked choices and the == test to unmarked ones"
+			}
+		}
+		for _, bo := range cmps {
+			for _, opnd := range []ssa.Value{bo.X, bo.Y} {
+				if call, ok := opnd.(*ssa.Call); ok {
+					if sc := call.Call.StaticCallee(); sc != nil && sc.Pkg != nil && sc.Pkg.Pkg.Path() == "strings" {
+						okV = false
+						why = "the outputs are compared after strings." + sc.Name() + ": outputs that differ only in whitespace would count as equal"
 					}
 				}
 			}
-			if okV && !(sameOperands(neq, eql)) {
+			if okV && !sameOperands(bo, cmps[0]) {
 				okV = false
 				why = "the two conditions compare different pairs of values"
-			}
-			// guarded by the marked flag with opposite polarity
-			if okV {
-				okV = guardedByLookup(neq, true) && guardedByLookup(eql, false)
-				if !okV {
-					why = "the != test must apply to marked choices and the == test to unmarked ones"
-				}
 			}
 		}
 		r.Check(okV, q(fn)+"#both-conditions", p.Rel(fn.Pos()), "a question is accepted exactly when marked choices match and unmarked ones do not", why)
 		// every accepting return comes after the loop over all outputs: it is the nil constant and both tests dominate... the loop exit
-		if okV {
+		if okV && len(cmps) > 0 {
 			accept := ""
 			for _, ret := range returnsOf(fn) {
 				for _, rv := range resultValues(ret, len(ret.Results)-1) {
@@ -398,7 +434,7 @@ func runCrypto(c *Ctx, r *Reporter) {
 					}
 					// a return that may accept (the nil constant, or the verdict of a further check handed on) lies
 					// behind the loop over all outputs: the loop header dominates it and it cannot get back into the loop
-					hdr := loopHeaderOf(neq.Block())
+					hdr := loopHeaderOf(cmps[0].Block())
 					if hdr != nil && hdr != ret.Block() && hdr.Dominates(ret.Block()) && !reachesBlock(ret.Block(), hdr) {
 						continue
 					}
@@ -603,6 +639,18 @@ func isNilConst(v ssa.Value) bool {
 
 // isZeroNonce: make([]byte, gcm.NonceSize()) that is never written.
 func isZeroNonce(v ssa.Value) bool {
+	// a helper of the package that returns the nonce (zeroNonce(gcm))
+	if hc, ok := v.(*ssa.Call); ok {
+		if h := hc.Call.StaticCallee(); h != nil && len(h.Blocks) > 0 && h.Signature.Results().Len() == 1 {
+			rets := returnsOf(h)
+			for _, ret := range rets {
+				if !isZeroNonce(ret.Results[0]) {
+					return false
+				}
+			}
+			return len(rets) > 0
+		}
+	}
 	ms, ok := v.(*ssa.MakeSlice)
 	if !ok {
 		return false
@@ -622,7 +670,11 @@ func isZeroNonce(v ssa.Value) bool {
 // headerLayout: (header length, offset of the uint16 length field).
 func headerLayout(fn *ssa.Function) (int64, int64) {
 	var header, off int64 = -1, -1
-	for _, b := range fn.Blocks {
+	var blocks []*ssa.BasicBlock
+	for _, h := range regionFns(fn, 2, map[string]bool{"hybridEncrypt": true, "hybridDecrypt": true}) {
+		blocks = append(blocks, h.Blocks...)
+	}
+	for _, b := range blocks {
 		for _, ins := range b.Instrs {
 			switch x := ins.(type) {
 			case *ssa.Alloc:
